@@ -43,6 +43,22 @@ def compute(ctx) -> List[Ob]:
             # path findings (O3, O4, O10, O11, ...)
             seen = set()
             bad_obs = set()
+            # O13: what the contexts on loop_stack declare is what the branch set up, at every nested statement
+            o13: Dict[str, Tuple[bool, str, int]] = {}
+            for e in live_ends:
+                for depth, declared, what, line, active, flagged, own_fin in getattr(e, "deferred", []):
+                    actual = e.res(depth)
+                    for key, ok, msg in (
+                        (f"operands@{what}", actual == declared, f"while {what} is compiled the branch holds {actual} operand(s) on the stack but its contexts on loop_stack declare {declared} (stack_items): a break/continue/return from inside drops the wrong number"),
+                        (f"handler@{what}", active == flagged, f"while {what} is compiled {active} handler record(s) of this statement are registered but the contexts on loop_stack declare {flagged} (handler_active): a break/continue/return from inside leaves a stale handler or pops a foreign one"),
+                        (f"finalizer-self@{what}", not own_fin, f"{what} is compiled while its own try context is still on loop_stack: a break/continue/return inside the finally block would run it again"),
+                    ):
+                        if key not in o13 or (o13[key][0] and not ok):
+                            o13[key] = (bool(ok), msg, line)
+            for key, (ok, msg, line) in sorted(o13.items()):
+                if key.startswith("finalizer-self@") and ok:
+                    continue
+                obs.append(Ob("O13", f"{base}:{key}", ok, "" if ok else f"{br.cls} branch of {fname}: {msg}", _loc(ea, line)))
             for e in live_ends:
                 for ob, key, msg, line in e.findings:
                     if (ob, key) in seen:
@@ -97,13 +113,22 @@ def compute(ctx) -> List[Ob]:
                 if c.body_depth is not None:
                     residues[kind] = live_ends[0].res(c.body_depth) if live_ends else c.body_depth
                 ck = f"{base}:ctx"
+                if c.is_try:
+                    # never a break/continue target (checked by the leave simulation): nothing to patch
+                    if not c.pushed or not c.popped:
+                        obs.append(Ob("O11", f"{ck}:push-pop", False, f"{br.cls}: the try context created at line {c.line} is not pushed on and popped from loop_stack on every path", _loc(ea, c.line)))
+                    continue
                 if not c.pushed or not c.popped:
                     obs.append(Ob("O11", f"{ck}:push-pop", False, f"{br.cls}: the LoopContext created at line {c.line} is not pushed on and popped from loop_stack on every path", _loc(ea, c.line)))
                 if not c.patched.get("break_jumps"):
                     obs.append(Ob("O11", f"{ck}:break_jumps", False, f"{br.cls}: break jumps collected by the context created at line {c.line} are never patched", _loc(ea, c.line)))
                 else:
                     obs.append(Ob("O11", f"{ck}:break_jumps", True, "", _loc(ea, c.line)))
-                can_continue = c.is_loop or c.labelled
+                if "_nonloop_continue" not in ea.__dict__:
+                    from . import leave
+
+                    ea._nonloop_continue = leave.continue_can_select_nonloop(ea)
+                can_continue = c.is_loop or (c.labelled and ea._nonloop_continue)
                 if can_continue and not c.patched.get("continue_jumps"):
                     obs.append(Ob("O11", f"{ck}:continue_jumps", False, f"{br.cls}: a labelled `continue` can select the context created at line {c.line}, but its continue jumps are never patched (they jump to offset 0)", _loc(ea, c.line)))
                 elif can_continue:
@@ -122,11 +147,6 @@ def compute(ctx) -> List[Ob]:
             obs.append(Ob("O1", f"{fname}:terminal", True, "", _loc(ea, br.line), {"function": fname, "paths": br.paths}))
         for ob, key, msg, line in {(f[0], f[1], f[2], f[3]) for f in fs}:
             obs.append(Ob(ob, f"{fname}:{key}", False, f"{fname}: {msg}", _loc(ea, line)))
-    br = ea.run_function("_emit_pending_finally_blocks")
-    if any(e.live and not (e.res(e.depth) == 0) for e in br.ends):
-        obs.append(Ob("O1", "_emit_pending_finally_blocks:neutral", False, "_emit_pending_finally_blocks is not stack-neutral", _loc(ea, br.line)))
-    else:
-        obs.append(Ob("O1", "_emit_pending_finally_blocks:neutral", True, "", _loc(ea, br.line)))
     ea.residues = residues
     obs.extend(_mechanisms(ctx, ea, residues))
     ctx._e3_obs = obs
@@ -253,21 +273,19 @@ def _mechanisms(ctx, ea, residues: Dict[str, Any]) -> List[Ob]:
     df, chain = ctx.facts.vm_dispatcher()
     pos = {k: v for k, v in residues.items() if not (v == 0)}
     comp = ea.comp
-    helper = ea.methods.get("_emit_pending_finally_blocks")
-    # O5 crossing residues at break / continue: the target-resolution code is interpreted over every
-    # two-context configuration [target, crossed] (finite domain; see sa/minieval.py)
-    out.extend(_crossing_obligations(ea, residues))
-    # O6 return
+    # O5 / O8 / O12a: what break, continue and return undo on their way out, by interpreting the compiler's own
+    # target-resolution and leave code over every stack of up to three contexts (sa/rules/leave.py)
+    out.extend(_leave_obligations(ea))
+    # O6 return: the RETURN handlers discard the operands of the frame (the return branch drops none itself)
     body, line = _branch_body(ea, "_compile_statement", "ReturnStatement")
     key = "_compile_statement:ReturnStatement:residues"
-    vm_truncates = False
     vm_truncates = all(
         ("del self.stack[" in _handler_text(ctx, chain, df, opn) and ".bp" in _handler_text(ctx, chain, df, opn)) for opn in ("RETURN", "RETURN_UNDEFINED")
     )
-    if not pos or vm_truncates or _has_emit_in_loop_over(body, "POP", "loop_stack"):
+    if not pos or vm_truncates:
         out.append(Ob("O6", key, True, "", _loc(ea, line)))
     else:
-        out.append(Ob("O6", key, False, f"`return` from inside {sorted(pos)} leaves their residue under the return value: neither the RETURN handlers truncate the operand stack to the frame base nor the return branch pops per enclosing context", _loc(ea, line)))
+        out.append(Ob("O6", key, False, f"`return` from inside {sorted(pos)} leaves their residue under the return value: the RETURN handlers do not truncate the operand stack to the frame base", _loc(ea, line)))
     # O7 throw restores operand depth
     ts = chain.body_of("TRY_START") or []
     rec_has_depth = any("len(self.stack)" in norm(s) for s in ts)
@@ -279,24 +297,13 @@ def _mechanisms(ctx, ea, residues: Dict[str, Any]) -> List[Ob]:
         out.append(Ob("O7", key, True, "", thr.loc))
     else:
         out.append(Ob("O7", key, False, "the handler record pushed by TRY_START does not carry the operand depth / _throw does not truncate the operand stack to it: operands pending when an exception is thrown stay on the stack after the catch", thr.loc if thr else df.loc))
-    # O8 handler typestate on abrupt exits
-    try_body, try_line = _branch_body(ea, "_compile_statement", "TryStatement")
-    pushes_all = False
-    for s in try_body:
-        if isinstance(s, ast.Expr) and isinstance(s.value, ast.Call) and norm(s.value.func) == "self.try_stack.append":
-            pushes_all = True  # unconditional (top-level statement of the branch)
-    helper_body = helper.body() if helper else []
-    for cls, what in (("BreakStatement", "break"), ("ContinueStatement", "continue"), ("ReturnStatement", "return")):
-        body, line = _branch_body(ea, "_compile_statement", cls)
-        emits_end = _has_emit_in_loop_over(body, "TRY_END", "try_stack") or _has_emit_in_loop_over(helper_body, "TRY_END", "try_stack")
-        vm_prunes = False
-        if what == "return":
-            vm_prunes = all("self.exception_handlers.pop()" in _handler_text(ctx, chain, df, opn) for opn in ("RETURN", "RETURN_UNDEFINED"))
-        key = f"_compile_statement:{cls}:handler-stack"
-        if (emits_end and pushes_all) or vm_prunes:
-            out.append(Ob("O8", key, True, "", _loc(ea, line)))
-        else:
-            out.append(Ob("O8", key, False, f"`{what}` out of a try block leaves the handler record pushed by TRY_START on the handler stack (no TRY_END per crossed try region{', and RETURN does not prune handlers of the popped frame' if what == 'return' else ''}): a later throw jumps to a stale catch address", _loc(ea, line)))
+    # O8 (return): the RETURN handlers also prune the handler records of the frame they pop
+    vm_prunes = all("self.exception_handlers.pop()" in _handler_text(ctx, chain, df, opn) for opn in ("RETURN", "RETURN_UNDEFINED"))
+    key = "vm:RETURN:handler-records"
+    if vm_prunes:
+        out.append(Ob("O8", key, True, "", df.loc))
+    else:
+        out.append(Ob("O8", key, False, "RETURN does not prune the handler records of the frame it pops: a function that returns from inside a try block (through a path the compiler did not see) leaves a stale handler", df.loc))
     # O9 nested run loops notice unwinding below them
     for f, loop in ctx.facts.dispatch_loops():
         if isinstance(loop, ast.While) and isinstance(loop.test, ast.Compare) and "len(self.call_stack)" in norm(loop.test.left):
@@ -318,32 +325,17 @@ def _mechanisms(ctx, ea, residues: Dict[str, Any]) -> List[Ob]:
         for cs in ctx.cg.sites:
             if any(tg is fl for tg in cs.targets) and cs.kind == "resolved" and cs.func.name != "run":
                 out.append(Ob("O9", f"{cs.func.qual}:reenters-full-loop", False, f"{cs.func.qual} re-enters {fl.name}, whose loop runs until the call stack is empty, so it returns only after the *caller's* frames have finished too (call/apply/bound calls run the rest of the program inside the native)", f"{cs.func.module.rel}:{cs.line}"))
-    # O12a finalizer inlining at break/continue must depend on the target context
-    for cls, what in (("BreakStatement", "break"), ("ContinueStatement", "continue")):
-        body, line = _branch_body(ea, "_compile_statement", cls)
-        dep = False
-        how = "unscoped"
-        for s in body:
-            for n in walk_no_nested(s):
-                if isinstance(n, ast.Call) and norm(n.func) == "self._emit_pending_finally_blocks" and (n.args or n.keywords):
-                    # the scope of the inlined finally blocks must be derived from the resolved target context
-                    exprs = list(n.args) + [k.value for k in n.keywords]
-                    dep = "ctx" in [x.id for a in exprs for x in ast.walk(a) if isinstance(x, ast.Name)]
-                    how = "scoped-by:" + ",".join(norm(a) for a in exprs)
-        key = f"_compile_statement:{cls}:finally-scope" + ("" if how == "unscoped" else f":{how}")
-        if dep:
-            out.append(Ob("O12a", key, True, "", _loc(ea, line)))
-        elif how == "unscoped":
-            out.append(Ob("O12a", key, False, f"`{what}` inlines every pending finally block regardless of its target: a try…finally that encloses the loop runs its finally at the {what} and again on normal exit", _loc(ea, line)))
-        else:
-            out.append(Ob("O12a", key, False, f"`{what}` limits the finally blocks it inlines by `{how[10:]}`, which does not depend on the context the jump was resolved to: a finally between the {what} and its (labelled or outer-loop) target is skipped, or one around the target runs early", _loc(ea, line)))
     # O12b per-function compiler state
     readers = set()
     for cls in ("BreakStatement", "ContinueStatement", "ReturnStatement"):
         body, _ = _branch_body(ea, "_compile_statement", cls)
+        helper_body = []
+        for hn in ("_emit_leave_contexts", "_new_loop_context"):
+            if hn in ea.methods:
+                helper_body += ea.methods[hn].body()
         for s in body + helper_body:
             for n in ast.walk(s):
-                if isinstance(n, ast.Attribute) and norm(n.value) == "self" and n.attr in ("loop_stack", "try_stack"):
+                if isinstance(n, ast.Attribute) and norm(n.value) == "self" and n.attr in ("loop_stack", "try_stack", "_pending_labels"):
                     readers.add(n.attr)
     per_fn: Dict[str, Dict[str, Tuple[bool, bool, bool]]] = {}
     for fname in ("_compile_function", "_compile_arrow_function"):
@@ -373,21 +365,6 @@ def _mechanisms(ctx, ea, residues: Dict[str, Any]) -> List[Ob]:
                 missing = [w for w, ok in (("save", saved), ("reset", reset), ("restore", restored)) if not ok]
                 out.append(Ob("O12b", key, False, f"{fname} does not {'/'.join(missing)} self.{attr}, which is per-function compiler state ({'read by break/continue/return' if attr in readers else 'saved or reset by a function compiler'}): the enclosing function continues with the nested function's value (or the nested one sees the outer's)", f.loc))
     return out
-
-
-def _ctx_kinds(ea, residues) -> Dict[str, Any]:
-    """Context kinds created by the statement compiler: name -> Obj(is_loop, label, residue)."""
-    from ..minieval import Obj
-
-    kinds = {}
-    for br in ea.run_chain("_compile_statement"):
-        for e in br.ends:
-            for c in e.ctxs:
-                name = LOOP_KINDS.get(br.cls, "switch" if br.cls == "SwitchStatement" else ("label" if br.cls == "LabeledStatement" else br.cls))
-                res = residues.get(name)
-                r = res.c if hasattr(res, "c") and res.is_const() else (0 if res is None else None)
-                kinds[name] = dict(is_loop=c.is_loop, labelled=c.labelled, residue=r)
-    return kinds
 
 
 def _boundary_protocol(ctx, f, loop, saved: str) -> bool:
@@ -431,63 +408,37 @@ def _boundary_protocol(ctx, f, loop, saved: str) -> bool:
     return False
 
 
-def _crossing_obligations(ea, residues) -> List[Ob]:
-    from ..minieval import Aborted, Obj, Sim, Unsupported
+def _leave_obligations(ea) -> List[Ob]:
+    from . import leave
 
     out: List[Ob] = []
-    kinds = _ctx_kinds(ea, residues)
-    if len(kinds) < 6:
-        raise AnalysisError(f"only {len(kinds)} context kinds recognised: {sorted(kinds)}")
-
-    def mk(name, label=None):
-        k = kinds[name]
-        return Obj(kind=name, is_loop=k["is_loop"], label=(label if k["labelled"] else None), break_jumps=[], continue_jumps=[], residue=k["residue"])
-
-    for cls, what in (("BreakStatement", "break"), ("ContinueStatement", "continue")):
-        body, line = _branch_body(ea, "_compile_statement", cls)
-        scenarios = []
-        for xname in kinds:
-            if what == "continue":
-                # unlabelled continue: innermost context X inside a plain loop T
-                scenarios.append((f"unlabelled continue inside {xname} inside while", [mk("while"), mk(xname, "X")], None))
-            else:
-                scenarios.append((f"unlabelled break inside {xname} inside while", [mk("while"), mk(xname, "X")], None))
-                scenarios.append((f"`break L` inside {xname} inside L: {{...}}", [mk("label", "L"), mk(xname, "X")], "L"))
-        for desc, stack, label in scenarios:
-            x = stack[-1]
-            t = stack[0]
-            node = Obj(label=(Obj(name=label) if label else None), loc=None)
-            sim = Sim({"node": node, "self": Obj(loop_stack=list(stack), try_stack=[]), "None": None, "True": True, "False": False})
-            key = f"_compile_statement:{cls}:crossing:{x.kind}:{'labelled' if label else 'unlabelled'}"
-            try:
-                sim.run(body)
-            except Aborted:
-                continue
-            except Unsupported as e:
-                out.append(Ob("O5", key, False, f"{cls}: target resolution uses a construct the crossing analysis cannot interpret ({e})", _loc(ea, line)))
-                continue
-            except Exception as e:  # interpretation error: treat as unsupported
-                out.append(Ob("O5", key, False, f"{cls}: crossing analysis failed ({type(e).__name__}: {e})", _loc(ea, line)))
-                continue
-            sel = sim.env.get("ctx")
-            # which context does the language select?
-            if label:
-                want = t
-            elif what == "continue":
-                want = x if x.is_loop else t
-            else:
-                want = x if (x.is_loop or x.label is None) else t
-            if sel is None:
-                continue
-            if sel is not want:
-                out.append(Ob("O5", key + ":target", False, f"{desc}: the jump is attached to the {getattr(sel, 'kind', '?')} context instead of the {want.kind} one", _loc(ea, line)))
-                continue
-            crossed = [x] if want is t else []
-            need = sum(c.residue or 0 for c in crossed)
-            if sim.pops == need:
-                out.append(Ob("O5", key, True, "", _loc(ea, line), {"scenario": desc, "pops": sim.pops, "residue_crossed": need}))
-            else:
-                out.append(Ob("O5", key, False, f"{desc}: the {what} emits {sim.pops} POP(s) but crosses a context that keeps {need} operand(s) on the stack: each execution {'leaks' if sim.pops < need else 'removes'} {abs(need - sim.pops)} operand(s) {'(memory grows, later operands are misread)' if sim.pops < need else '(an enclosing expression or loop iterator is lost)'}", _loc(ea, line)))
+    recs = leave.simulate(ea)
+    if len(recs) < 200:
+        raise AnalysisError(f"only {len(recs)} leave scenarios simulated")
+    agg: Dict[Tuple[str, str], Dict[str, Any]] = {}
+    for rec in recs:
+        res = leave.check(rec)
+        cls = rec["cls"]
+        inner = rec["crossed"][-1] if rec["crossed"] else "none"
+        lab = "labelled" if rec["labelled"] else "unlabelled"
+        keys = {
+            "target": ("O5", f"_compile_statement:{cls}:crossing:{inner}:{lab}:target"),
+            "operands": ("O5" if rec["what"] != "return" else "O6", f"_compile_statement:{cls}:crossing:{inner}:{lab}"),
+            "handlers": ("O8", f"_compile_statement:{cls}:handler-stack"),
+            "finalizers": ("O12a", f"_compile_statement:{cls}:finally-scope"),
+        }
+        for concern, (ob, key) in keys.items():
+            a = agg.setdefault((ob, key), {"n": 0, "bad": None, "line": rec["line"]})
+            a["n"] += 1
+            if res[concern] is not None and a["bad"] is None:
+                a["bad"] = res[concern]
+    for (ob, key), a in sorted(agg.items()):
+        if key.endswith(":target") and a["bad"] is None:
+            continue  # target selection is only reported when wrong
+        if a["bad"] is None:
+            out.append(Ob(ob, key, True, "", _loc(ea, a["line"]), {"scenarios": a["n"]}))
+        else:
+            out.append(Ob(ob, key, False, a["bad"], _loc(ea, a["line"])))
     return out
 
 
